@@ -93,6 +93,9 @@ func c10Programs(c *Ctx) []c10Prog {
 		{"close", strings.Fields("add:a:p1 add:b:p2 run waitrunning started:a started:b probe:a close")},
 		{"close", strings.Fields("add:a:p1 run waitrunning add:b:p2 rhfresh started:a started:b stop:a waitstopped:a probe:b close")},
 		{"close", strings.Fields("run waitrunning add:a:p1 rh started:a close")},
+		// Close on a router that was never run: it does not come up, its handlers hold no subscription
+		{"close-before-run", strings.Fields("shorttimeout add:a:p1 isrunning close isrunning")},
+		{"close-before-run", strings.Fields("shorttimeout add:a:p1 add:b:p2 close pause isrunning")},
 		// a router started without handlers: the first handler arrives later, possibly after the Run context was cancelled
 		{"empty-run", strings.Fields("run waitrunning add:a:p1 rh started:a probe:a stop:a waitstopped:a")},
 		{"empty-run", strings.Fields("run waitrunning cancel pause add:a:p1 rh started:a")},
@@ -398,6 +401,18 @@ func c10Run(r *tr.Run, p c10Prog) {
 			case <-time.After(HangBound):
 				r.Emit("hung", "what", "Run did not return")
 				return
+			}
+		case f[0] == "isrunning":
+			// a look at Running() / IsRunning() without waiting
+			select {
+			case <-router.Running():
+				r.Emit("running")
+			default:
+				if router.IsRunning() {
+					r.Emit("running")
+				} else {
+					r.Emit("notrunning")
+				}
 			}
 		case f[0] == "waitrunning":
 			select {
